@@ -685,11 +685,7 @@ func factMatches(f domFact, want string) bool {
 		break
 	}
 	got := valuePath(v)
-	if strings.HasSuffix(path, "*") {
-		if !strings.HasPrefix(got, strings.TrimSuffix(path, "*")) {
-			return false
-		}
-	} else if got != path {
+	if !pathMatches(got, path) {
 		return false
 	}
 	return pol == !neg
